@@ -870,16 +870,21 @@ func (s *session) startReadAndHandle() {
 	var (
 		err      error
 		usedConn = s.getConn()
+		reading  *handlerCtx // the context being read, until it is handed to its handler
 	)
 	defer func() {
 		if p := recover(); p != nil {
 			err = fmt.Errorf("panic:%v\n%s", p, goutil.PanicTrace(2))
+			if reading != nil {
+				reading.abortReply(err)
+			}
 		}
 		s.readDisconnected(usedConn, err)
 	}()
 	// read call, call reply or push
 	for s.goonRead() {
 		var ctx = s.peer.getContext(s, false)
+		reading = ctx
 		withContext(ctx.input)
 		if s.peer.pluginContainer.preReadHeader(ctx) != nil {
 			s.peer.putContext(ctx, false)
@@ -887,6 +892,9 @@ func (s *session) startReadAndHandle() {
 		}
 		err = s.socket.ReadMessage(ctx.input)
 		if (err != nil && ctx.GetBodyCodec() == codec.NilCodecID) || !s.goonRead() {
+			// handleReply will not run: complete the call bound by bindReply here
+			reading = nil
+			ctx.abortReply(err)
 			s.peer.putContext(ctx, false)
 			return
 		}
@@ -894,11 +902,17 @@ func (s *session) startReadAndHandle() {
 			ctx.stat = statBadMessage.Copy(err)
 		}
 		verifGate("read.got", s)
+		reading = nil
 		s.graceCtxWaitGroup.Add(1)
 		if !Go(func() {
 			defer s.peer.putContext(ctx, true)
 			ctx.handle()
 		}) {
+			// no goroutine for the handler: a bound reply is still delivered,
+			// because bindReply holds the call's mutex until handleReply has run
+			if ctx.callCmd != nil {
+				ctx.handleReply()
+			}
 			s.peer.putContext(ctx, true)
 		}
 	}
